@@ -4,6 +4,7 @@ C14 — glyph names in the "post" table (post/post.go: `Info.Encode`, `Read`; po
 string) is the list of its bytes.
 -/
 import SfntV.Prelude.Bytes
+import SfntV.Prelude.Outcome
 import SfntV.Generated.Names
 
 namespace SfntV.Names
@@ -154,5 +155,30 @@ def postTable : List GName := Gen.postMacRoman.map fun s => s.toUTF8.toList.map 
 
 def postEncode := postEncodeWith postTable
 def postRead := postReadWith postTable
+
+/-! ### the refusals of `Encode` (repair 96a7393) -/
+
+/-- the names that go to the string data (not standard Macintosh names) -/
+def postCustom (tbl : List GName) (ns : List GName) : List GName :=
+  ns.filter fun n => (macIdx tbl n).isNone
+
+/-- what the format 2.0 table can hold: a 16-bit glyph count, one length byte per custom name,
+16-bit name indices `258 + k` -/
+def postFits (tbl : List GName) (ns : List GName) : Bool :=
+  decide (ns.length ≤ 65535) && (postCustom tbl ns).all (fun n => decide (n.length ≤ 255)) &&
+    decide (tbl.length + (postCustom tbl ns).length ≤ 65536)
+
+/-- `(*post.Info).Encode` with its panics ("too many glyph names", "glyph name longer than 255
+bytes", "too many non-standard glyph names"): the bytes of `postEncodeWith`, or a loud refusal -/
+def postEncodeCheckedWith (tbl : List GName) (h : PostHdr) (names : Option (List GName)) :
+    Outcome (List Nat) :=
+  match names with
+  | none => .ok (postEncodeWith tbl h none)
+  | some ns =>
+    if ns = tbl then .ok (postEncodeWith tbl h (some ns))
+    else if postFits tbl ns = true then .ok (postEncodeWith tbl h (some ns))
+    else .panic "post.Encode"
+
+def postEncodeChecked := postEncodeCheckedWith postTable
 
 end SfntV.Names
